@@ -83,10 +83,43 @@ func drawRender(t *rapid.T, sink string, maxN, maxCells3, maxCells2 int) fc.Case
 func ext(sink string) string { return "." + sink }
 
 func describe(c fc.Case) string {
-	if c.Renderer == "scripted" {
-		return fmt.Sprintf("%s|scripted|n=%d|chunk=%d", c.Sink, c.N, c.Chunk)
+	h := ""
+	if c.Procs > 0 || c.CPUs > 0 {
+		h = "|" + hostOf(c)
 	}
-	return fmt.Sprintf("%s|%s|%s|cells=%d", c.Sink, c.Renderer, c.Shape, c.Cells)
+	if c.Renderer == "scripted" {
+		return fmt.Sprintf("%s|scripted|n=%d|chunk=%d%s", c.Sink, c.N, c.Chunk, h)
+	}
+	return fmt.Sprintf("%s|%s|%s|cells=%d%s", c.Sink, c.Renderer, c.Shape, c.Cells, h)
+}
+
+// the processors the child runs with: the machine's (default), a GOMAXPROCS setting in its environment,
+// or a host / cpuset with fewer CPUs (runtime.NumCPU() of the child is what was drawn)
+func hostOf(c fc.Case) string {
+	switch {
+	case c.Procs > 0 && c.CPUs > 0:
+		return fmt.Sprintf("host:%d-cpus+GOMAXPROCS=%d", c.CPUs, c.Procs)
+	case c.Procs > 0:
+		return fmt.Sprintf("host:GOMAXPROCS=%d", c.Procs)
+	case c.CPUs > 0:
+		return fmt.Sprintf("host:%d-cpus", c.CPUs)
+	}
+	return "host:default"
+}
+
+func drawHost(t *rapid.T, c *fc.Case) {
+	switch rapid.SampledFrom([]string{"default", "default", "default", "default", "GOMAXPROCS", "cpus", "default", "default", "both"}).Draw(t, "host") {
+	case "GOMAXPROCS":
+		c.Procs = rapid.SampledFrom([]int{1, 2, 3, 64}).Draw(t, "GOMAXPROCS")
+	case "cpus":
+		c.CPUs = rapid.SampledFrom([]int{1, 2, 3}).Draw(t, "cpus")
+	case "both":
+		c.CPUs = rapid.SampledFrom([]int{1, 2}).Draw(t, "cpus")
+		c.Procs = rapid.SampledFrom([]int{1, 4}).Draw(t, "GOMAXPROCS")
+	}
+	if c.CPUs > runtime.NumCPU() {
+		c.CPUs = runtime.NumCPU()
+	}
 }
 
 func nBucket(n int) string {
@@ -125,6 +158,7 @@ func referenceSize(t *rapid.T, rec *ev.Rec, c fc.Case, dir string) int64 {
 	ref := c
 	ref.Path = filepath.Join(dir, "ref"+ext(c.Sink))
 	ref.Fsize, ref.Uid, ref.Fault = -1, 0, "none"
+	ref.Procs, ref.CPUs = 0, 0
 	o := runChild(ref, childDeadline)
 	rec.Count("children:reference", 1)
 	switch o.Kind {
@@ -202,6 +236,7 @@ func TestFaultReturns(t *testing.T) {
 
 		sink := rapid.SampledFrom([]string{"stl", "stl", "stl", "3mf", "dxf", "svg"}).Draw(t, "sink")
 		c := drawRender(t, sink, maxN, ev.Pick(20, 32), ev.Pick(48, 96))
+		drawHost(t, &c)
 		fault := rapid.SampledFrom([]string{"fsize", "fsize", "fsize", "dev-full", "fsize", "fsize", "fsize",
 			"dev-full", "missing-dir", "is-dir", "ro-dir"}).Draw(t, "fault")
 		c.Fault = fault
@@ -291,7 +326,14 @@ func TestFaultReturns(t *testing.T) {
 		}
 		midstream := fired == "yes" && (fault == "dev-full" || fault == "fsize")
 		labels := []string{"sink=" + sink, "renderer=" + c.Renderer, "fault=" + c.Fault, "fired=" + fault + ":" + fired,
-			"outcome=" + o.Kind.String(), "sink*fault=" + sink + "*" + faultStage(c.Fault)}
+			"outcome=" + o.Kind.String(), "sink*fault=" + sink + "*" + faultStage(c.Fault), hostOf(c)}
+		if c.Renderer != "scripted" && (c.Procs == 1 || c.CPUs == 1) {
+			labels = append(labels, "host:one-processor*"+c.Renderer)
+		}
+		if o.Kind == outReturned && (c.CPUs > 0 && o.Status.NumCPU != c.CPUs || c.Procs > 0 && o.Status.Procs != c.Procs) {
+			o.Detail = fmt.Sprintf("harness: the child reports NumCPU=%d GOMAXPROCS=%d, wanted %s", o.Status.NumCPU, o.Status.Procs, hostOf(c))
+			inconclusive(c, o)
+		}
 		if c.Renderer == "scripted" {
 			labels = append(labels, "scripted:n="+nBucket(c.N), fmt.Sprintf("scripted:chunk=%d", c.Chunk))
 			if sink == "stl" && fault == "fsize" && L < S {
@@ -679,6 +721,12 @@ func TestRegress(t *testing.T) {
 		{"stl-mco-sphere-340-no-fault", fc.Case{Sink: "stl", Renderer: "mco", Shape: "sphere", Cells: 340, Path: "big.stl", Fsize: -1, Fault: "none"}, 180},
 		{"stl-mcu-sphere-150-no-fault", fc.Case{Sink: "stl", Renderer: "mcu", Shape: "sphere", Cells: 150, Path: "big-u.stl", Fsize: -1, Fault: "none"}, 180},
 		{"dxf-msq-circle-4000-no-fault", fc.Case{Sink: "dxf", Renderer: "msq", Shape: "circle", Cells: 4000, Path: "big.dxf", Fsize: -1, Fault: "none"}, 180},
+		// hosts with one processor / GOMAXPROCS=1 (single-core VM, one-CPU cpuset): the uniform renderer's
+		// worker pool must still make progress
+		{"stl-mcu-sphere-20-one-cpu", fc.Case{Sink: "stl", Renderer: "mcu", Shape: "sphere", Cells: 20, Path: "one-cpu.stl", Fsize: -1, Fault: "none", CPUs: 1}, 60},
+		{"stl-mcu-sphere-20-gomaxprocs1", fc.Case{Sink: "stl", Renderer: "mcu", Shape: "sphere", Cells: 20, Path: "procs1.stl", Fsize: -1, Fault: "none", Procs: 1}, 60},
+		{"3mf-mcu-box-70-two-cpus", fc.Case{Sink: "3mf", Renderer: "mcu", Shape: "box", Cells: 70, Path: "two-cpus.3mf", Fsize: -1, Fault: "none", CPUs: 2}, 60},
+		{"stl-mcu-sphere-devfull-one-cpu", fc.Case{Sink: "stl", Renderer: "mcu", Shape: "sphere", Cells: 16, Path: "/dev/full", Fsize: -1, Fault: "dev-full", CPUs: 1, Procs: 1}, 60},
 		{"3mf-fsize0", fc.Case{Sink: "3mf", Renderer: "scripted", N: 300, Chunk: 1, Path: "a.3mf", Fsize: 0, Fault: "fsize:0"}, 60},
 		{"dxf-fsize4096", fc.Case{Sink: "dxf", Renderer: "scripted", N: 300, Chunk: 1, Path: "a.dxf", Fsize: 4096, Fault: "fsize:flush-boundary+-1"}, 60},
 	}
